@@ -31,6 +31,7 @@ type Program struct {
 	ByKey    map[string]*ssa.Function
 	keyOf    map[*ssa.Function]string
 	LoadSecs float64
+	Overlay  map[string][]byte // the overlay the program was loaded with (nil = the tree as written)
 
 	cg      *CallGraph
 	fnFacts map[*ssa.Function]*FuncFacts
@@ -83,7 +84,7 @@ func Load(dir string, overlay map[string][]byte) (*Program, error) {
 	prog, _ := ssautil.Packages(pkgs, ssa.InstantiateGenerics)
 	prog.Build()
 
-	P := &Program{Dir: dir, Fset: pkgs[0].Fset, Pkgs: pkgs, SSA: prog,
+	P := &Program{Dir: dir, Fset: pkgs[0].Fset, Pkgs: pkgs, SSA: prog, Overlay: overlay,
 		PkgByRel: map[string]*packages.Package{}, ByKey: map[string]*ssa.Function{},
 		keyOf: map[*ssa.Function]string{}, fnFacts: map[*ssa.Function]*FuncFacts{},
 		summ: map[string]map[*ssa.Function]bool{}}
